@@ -157,6 +157,14 @@ func runC10(c *core.Ctx) {
 			}
 			c.Check(good, "C10/data-tries-visited", "AccountsDB."+a[0], fn.Pos(), "the leaves channel given to "+a[1]+" is the one consumed by snapshotUserAccountDataTrie",
 				"the account leaves produced by the main-trie traversal are not consumed by snapshotUserAccountDataTrie: data tries are missing from the snapshot")
+			// pruning stays buffered until the data tries were requested: no Exit before snapshotUserAccountDataTrie returned
+			q := core.PathQ{Fn: gofn, Via: func(in ssa.Instruction) bool {
+				return core.IsCall(in, sp, "AccountsDB", "snapshotUserAccountDataTrie")
+			}, Target: func(in ssa.Instruction, _ *ssa.BasicBlock) bool { return isExit(in) }}
+			esc, path := q.Escape()
+			c.Check(esc == nil, "C10/buffering-covers-data-tries", "AccountsDB."+a[0], fn.Pos(),
+				"ExitPruningBufferingMode is reached only after snapshotUserAccountDataTrie returned",
+				"pruning-buffering mode is left before the data tries were snapshotted: a prune in that window deletes nodes the pending data-trie snapshots still need ("+c.P.PathString(path)+")")
 		}
 	}
 	if fn := anchorM(c, sp, "AccountsDB", "snapshotUserAccountDataTrie"); fn != nil {
@@ -230,6 +238,16 @@ func runC10(c *core.Ctx) {
 			mustPassChecked(c, fn, "C10/traversal-complete", "extensionNode."+m+"/recurse", nil,
 				func(in ssa.Instruction, cc *ssa.CallCommon) bool { return isInvoke(cc, m) && isRecvField(fn, cc.Value, "child") },
 				core.SuccessReturn, notNeeded(fn), "the child is traversed (error checked) before success")
+			if m == "commitCheckpoint" {
+				cvc := core.NewCheckedVia(fn, func(in ssa.Instruction, cc *ssa.CallCommon) bool { return isInvoke(cc, m) && isRecvField(fn, cc.Value, "child") })
+				q := core.PathQ{Fn: fn, Via: cvc.Via, ViaEdge: cvc.ViaEdge, Target: func(in ssa.Instruction, _ *ssa.BasicBlock) bool {
+					cc := core.CallOf(in)
+					return cc != nil && isInvoke(cc, "Remove") && core.CallDesc(cc).Recv == "CheckpointHashesHolder"
+				}}
+				esc, p := q.Escape()
+				c.Check(esc == nil, "C10/marker-dropped-after-children", "extensionNode."+m, fn.Pos(), "the checkpoint marker is removed only after the child was traversed",
+					"checkpointHashes.Remove(hash) is reachable before the child was checkpointed: "+c.P.PathString(p))
+			}
 			mustPassChecked(c, fn, "C10/node-persisted", "extensionNode."+m, nil,
 				func(in ssa.Instruction, cc *ssa.CallCommon) bool { return core.CallDesc(cc).Name == "saveToStorage" },
 				core.SuccessReturn, notNeeded(fn), "the node is written to the target DB (error checked) before success")
@@ -369,4 +387,15 @@ func c10Branch(c *core.Ctx, fn *ssa.Function, m string, notNeeded pruneFn) {
 	mustPassChecked(c, fn, "C10/node-persisted", name, nil,
 		func(in ssa.Instruction, cc *ssa.CallCommon) bool { return core.CallDesc(cc).Name == "saveToStorage" },
 		core.SuccessReturn, notNeeded, "the node is written to the target DB (error checked) before success")
+	// the checkpoint-hash marker is dropped only after all children were traversed
+	isRemove := func(in ssa.Instruction, _ *ssa.BasicBlock) bool {
+		cc := core.CallOf(in)
+		return cc != nil && isInvoke(cc, "Remove") && core.CallDesc(cc).Recv == "CheckpointHashesHolder"
+	}
+	q3 := core.PathQ{Fn: fn, ViaEdge: func(b *ssa.BasicBlock, s int) bool { return exh[[2]int{b.Index, s}] }, Target: isRemove}
+	if esc, p := q3.Escape(); esc != nil {
+		c.Fail("C10/marker-dropped-after-children", name, esc.Pos(), "checkpointHashes.Remove(hash) is reachable before the children loop ran to exhaustion: if a child fails afterwards the node is never checkpointed again ("+c.P.PathString(p)+")")
+	} else if m == "commitCheckpoint" {
+		c.Pass("C10/marker-dropped-after-children", name, callIn.Pos(), "the checkpoint marker is removed only after every child was traversed")
+	}
 }
